@@ -110,6 +110,39 @@ def fault_size(data, o, rng, idx=None, value=None):
                            "minus" if value < it[3] else "plus"))
 
 
+def fault_straddle(data, o, rng):
+    """two (or more) nested regions are made to end inside the same multi-byte field"""
+    size_item = {ri: idx for idx, ri in o.sizefields}
+    cands = []
+    for i, it in enumerate(o.items):
+        if it[0] != "P" or it[5] < 2:
+            continue
+        regs = [ri for ri, r in enumerate(o.regions) if r.max is not None and ri in size_item
+                and size_item[ri] < i and r.start <= it[4] < r.start + r.max]
+        if len(regs) >= 2:
+            cands.append((i, regs))
+    if not cands:
+        return None
+    i, regs = rng.choice(cands)
+    it = o.items[i]
+    chosen = regs if rng.random() < 0.5 else rng.sample(regs, 2)
+    cur = data
+    recs = []
+    for ri in chosen:
+        r = o.regions[ri]
+        end = it[4] + rng.randint(1, it[5] - 1)
+        new = end - r.start
+        sit = o.items[size_item[ri]]
+        nd = put(cur, sit, new)
+        if nd is None or new < 0:
+            continue
+        cur = nd
+        recs.append(_rec("size", o, sit, size_item[ri], old=sit[3], new=new, region=r.kind, delta="straddle"))
+    if len(recs) < 2:
+        return None
+    return cur, recs
+
+
 def fault_count(data, o, rng):
     if not o.counts:
         return None
